@@ -129,13 +129,18 @@ def spawn_requesters(sim, scn, run):
 # oracle
 # ---------------------------------------------------------------------------------------------
 
-def admission_model(views):
-    """Replay the sequential admission rule over the observed accept order.
-    Returns (expected verdict per cid, final seat table)."""
+def admission_model(views, order=None):
+    """Replay the sequential admission rule over the observed accept order (or over `order`, a
+    list of connection ids: the linearization found by admission_linearizable, followed by the
+    accepted connections it does not contain).  Returns (expected verdict per cid, final seat
+    table)."""
     seats = {s: None for s in rb.SEATS}
     expect = {}
     acc = sorted((v for v in views.values() if v.accept_index is not None),
                  key=lambda v: v.accept_index)
+    if order:
+        pos = {cid: i for i, cid in enumerate(order)}
+        acc.sort(key=lambda v: (pos.get(v.cid, len(pos)), v.accept_index))
     for v in acc:
         if v.seat is None:
             expect[v.cid] = ('unparsed', None)
@@ -155,9 +160,80 @@ def admission_model(views):
     return expect, seats
 
 
+def _seq_verdict(table, seat, team, version):
+    if version != 18:
+        return 'error'
+    if table[seat] is not None:
+        return 'error'
+    pt = table[rb.partner(seat)]
+    if pt is not None and pt != team:
+        return 'error'
+    return 'seated'
+
+
+def admission_linearizable(views):
+    """Is there an order of the answered requests -- respecting real-time precedence: X before Y
+    whenever X's reply was sent before Y's request was sent -- in which the sequential admission
+    rule yields exactly the observed verdicts?  The table manager of the pinned tree admits one
+    connection at a time, so the accept order is the only candidate; an implementation that
+    handles connections concurrently is just as right as long as SOME such order exists, and the
+    check must not demand more than that.  Returns (ok, order)."""
+    ops = []
+    for v in views.values():
+        if v.seat is None or not v.c2s or not v.s2c:
+            continue
+        first = v.s2c[0][2][0]
+        if first not in ('SEATED', 'ERROR'):
+            continue
+        ops.append({'cid': v.cid, 'seat': v.seat, 'team': v.team, 'version': v.version,
+                    'inv': v.c2s[0][0], 'res': v.s2c[0][0],
+                    'verdict': 'seated' if first == 'SEATED' else 'error'})
+    ops.sort(key=lambda o: o['cid'])
+    n = len(ops)
+    if n > 16:
+        return True, None          # never generated; do not search an exponential space
+    seen = set()
+
+    def dfs(done, table, order):
+        if len(done) == n:
+            return order
+        key = (done, tuple(table[s] for s in rb.SEATS))
+        if key in seen:
+            return None
+        seen.add(key)
+        full = all(table[s] is not None for s in rb.SEATS)
+        for i, o in enumerate(ops):
+            if i in done:
+                continue
+            # o may come next only if no other pending request had completed before o began
+            if any(j not in done and j != i and ops[j]['res'] < o['inv'] for j in range(n)):
+                continue
+            if full:
+                # the table is complete: the table manager has stopped accepting; whatever such
+                # a late request was told is outside the property
+                r = dfs(done | {i}, table, order + [o['cid']])
+            elif _seq_verdict(table, o['seat'], o['team'], o['version']) != o['verdict']:
+                continue
+            else:
+                t2 = dict(table)
+                if o['verdict'] == 'seated':
+                    t2[o['seat']] = o['team']
+                r = dfs(done | {i}, t2, order + [o['cid']])
+            if r is not None:
+                return r
+        return None
+
+    order = dfs(frozenset(), {s: None for s in rb.SEATS}, [])
+    return order is not None, order
+
+
 def check_c20(run, an):
     views = an.views
-    expect, seats = admission_model(views)
+    lin_ok, lin_order = admission_linearizable(views)
+    an.stats['admission_linearization'] = lin_order
+    # judged against the order in which the requests can have taken effect (for a table manager
+    # that admits one connection at a time that IS the accept order)
+    expect, seats = admission_model(views, lin_order if lin_ok else None)
     complete = all(seats[s] is not None for s in rb.SEATS)
     teams = {'NS': seats['N'], 'EW': seats['E']}
     nrej = 0
@@ -174,6 +250,8 @@ def check_c20(run, an):
                     an.add('C20', 'no-reply', f'{who} expected an error ({why}) but got nothing',
                            key='no-reply')
                 continue
+            if toks[0][0] != 'ERROR' and lin_ok:
+                continue        # right under another admissible order of concurrent requests
             if toks[0][0] != 'ERROR':
                 an.add('C20', 'wrongly-admitted',
                        f'{who} should have been turned away ({why}) but was answered '
@@ -191,6 +269,8 @@ def check_c20(run, an):
                 if run.outcome == 'finished':
                     an.add('C20', 'no-reply', f'{who} is acceptable but got no reply',
                            key='no-reply')
+                continue
+            if toks[0][0] != 'SEATED' and lin_ok:
                 continue
             if toks[0][0] != 'SEATED':
                 an.add('C20', 'wrongly-rejected', f'{who} is acceptable but was answered '
@@ -268,7 +348,8 @@ def check_c20(run, an):
 def evaluate(run, props):
     an = so.Analysis(run)
     so.find_seated(an)
-    expect, seats = admission_model(an.views)
+    lin_ok, lin_order = admission_linearizable(an.views)
+    expect, seats = admission_model(an.views, lin_order if lin_ok else None)
     teams = {'NS': seats['N'] or '?', 'EW': seats['E'] or '?'}
     run.scn = dict(run.scn)
     run.scn['teams'] = teams
